@@ -561,3 +561,9 @@ def extra_checks(tier, seed):
     except Exception as e:      # harness trouble is never a verdict
         b = {'name': name, 'inputs': 0, 'violations': [], 'error': repr(e)}
     return {'bounded': [b], 'lemmas': []}
+
+
+# bound the counter-model search when a change breaks many paths of one function at once
+for _sp in [v_ for v_ in list(globals().values()) if isinstance(v_, Spec) and v_.prop == 'C06']:
+    if getattr(_sp, 'confirm_limit', None) is None:
+        _sp.confirm_limit = 2
